@@ -223,6 +223,9 @@ func crossOracles(nodes []*replayNode, all []string) []violation {
 		return nil
 	}
 	if *mode == "sim" {
+		if suffix != "" {
+			suffix += compactionMechanism(allCases)
+		}
 		for i, a := range nodes {
 			if a.flipped {
 				add("C01/decided-value-of-an-honest-operator-changed"+suffix, "replay: DecidedValue of operator "+strconv.Itoa(int(a.c.op))+" changed")
@@ -371,7 +374,11 @@ func replay(lines []string) []caseOut {
 		case "ctimeout":
 			c.applyCtrlTimeout(specqbft.Height(atou(kvOf(ws, "h"))), specqbft.Round(atou(kvOf(ws, "r"))))
 		case "ccompact":
-			c.diverged = true // arbitrary placement: not what the node does, the compaction oracle is not evaluated
+			if multi { // sim / c07 policy decided-only: attributed to compaction only when the shadow comparison says so
+				cur.compacts++
+			} else {
+				c.diverged = true // arbitrary placement: not what the node does, the compaction oracle is not evaluated
+			}
 			c.applyCtrlCompactAt(specqbft.Height(atou(kvOf(ws, "h"))))
 		case "crcompact":
 			if enc := k.msg(ws[1:]); enc != nil {
